@@ -62,6 +62,10 @@ pub struct Case {
     /// see c01::neutral_headers: further header fields, incl. codings the client does not decode and media types
     #[serde(default)]
     pub headers: u8,
+    /// the payload travels gzip-coded (stored blocks) under the generated framing: the framing faults then hit the coded
+    /// stream, and what the caller gets is still judged against the decoded payload
+    #[serde(default)]
+    pub gzip: bool,
 }
 
 pub struct C02;
@@ -206,8 +210,10 @@ fn run_sub(s: &Sub, events: Vec<Ev>, reads: &ReadPlan, rereads: &[usize], ctx: &
             Mode::IoErr(..) => false,
         };
     // an injected I/O error other than Interrupted (which std's read_exact / read_until / read_to_end retry) that lies where the
-    // client has to read through it - inside the frame, or anywhere in a close-delimited body - must surface: an error
-    // swallowed into a clean end presents an aborted body as a finished one
+    // client has to read through it - inside the frame, or anywhere in a close-delimited body - must not be turned into
+    // a clean end: a body reported as finished after such an error, without an error in between, has to be the whole
+    // payload from a completely served frame (a layer that resumes after a would-block, like the gzip header parser, and then
+    // reads the body to its true end has swallowed nothing)
     let io_must_surface = match s.mode {
         Mode::IoErr(k, kind, _) => kind != Kind::Interrupted && k >= head_end && (!framed || k < frame_end),
         _ => false,
@@ -217,8 +223,9 @@ fn run_sub(s: &Sub, events: Vec<Ev>, reads: &ReadPlan, rereads: &[usize], ctx: &
         Consumed::Hist(h) => {
             if io_must_surface {
                 if let Some(e) = h.eof_at {
-                    if h.err_at.map_or(true, |x| x > e) {
-                        return swallowed(&format!("a read returned Ok(0) after {} payload bytes with no error before it", h.delivered.len()));
+                    let whole = h.delivered.len() == s.payload.len() && (!framed || served_complete(&net));
+                    if h.err_at.map_or(true, |x| x > e) && !whole {
+                        return swallowed(&format!("a read returned Ok(0) after {} payload bytes with no error before it (history tail {:?})", h.delivered.len(), &h.events[h.events.len().saturating_sub(6)..]));
                     }
                 }
             }
@@ -260,7 +267,7 @@ fn run_sub(s: &Sub, events: Vec<Ev>, reads: &ReadPlan, rereads: &[usize], ctx: &
         }
         Consumed::Helper(r) => match r {
             Ok(v) => {
-                if io_must_surface {
+                if io_must_surface && !(v.len() == s.payload.len() && (!framed || served_complete(&net))) {
                     return swallowed(&format!("helper returned Ok({} bytes)", v.len()));
                 }
                 if must_fail {
@@ -281,7 +288,7 @@ fn run_sub(s: &Sub, events: Vec<Ev>, reads: &ReadPlan, rereads: &[usize], ctx: &
         },
         Consumed::Text(r) => match r {
             Ok(t) => {
-                if io_must_surface {
+                if io_must_surface && !(t == String::from_utf8_lossy(s.payload) && (!framed || served_complete(&net))) {
                     return swallowed("text_utf8 returned Ok");
                 }
                 if must_fail {
@@ -295,7 +302,7 @@ fn run_sub(s: &Sub, events: Vec<Ev>, reads: &ReadPlan, rereads: &[usize], ctx: &
         },
         Consumed::Json(r) => match r {
             Ok(v) => {
-                if io_must_surface {
+                if io_must_surface && !(!framed || served_complete(&net)) {
                     return swallowed("json() returned Ok");
                 }
                 if must_fail {
@@ -369,9 +376,9 @@ or >=1 read issued after the first error; distinct by hash of the serialised cas
             seg(),
             fault_strategy(),
             gen::read_plan_with_text_reader(),
-            (proptest::collection::vec(gen::read_size(), 0..6), prop_oneof![1 => Just(0u8), 1 => 0u8..12]),
+            (proptest::collection::vec(gen::read_size(), 0..6), prop_oneof![1 => Just(0u8), 1 => 0u8..12], prop::bool::weighted(0.15)),
         )
-            .prop_map(|((payload, framing), hdr_style, seg, fault, reads, (rereads, headers))| Case {
+            .prop_map(|((payload, framing), hdr_style, seg, fault, reads, (rereads, headers, gzip))| Case {
                 payload,
                 framing,
                 hdr_style,
@@ -380,6 +387,7 @@ or >=1 read issued after the first error; distinct by hash of the serialised cas
                 reads,
                 rereads,
                 headers,
+                gzip,
             })
             .boxed()
     }
@@ -394,7 +402,17 @@ or >=1 read issued after the first error; distinct by hash of the serialised cas
             }
             ctx.label("text-reader");
         }
-        let built = build_response(200, &crate::props::c01::neutral_headers(case.headers), &case.framing, case.hdr_style, &payload);
+        let coded: Option<Vec<u8>> = if case.gzip {
+            let mut w = crate::refhttp::deflate::BitWriter::new();
+            crate::refhttp::deflate::stored_blocks(&mut w, &payload, &[1000, 37, 65535], true);
+            w.align();
+            ctx.label("gzip-coded-body");
+            Some(crate::refhttp::deflate::gzip_frame(&w.out, &payload, &Default::default()))
+        } else {
+            None
+        };
+        let hdrs = if case.gzip { vec![("Content-Encoding".to_string(), b"gzip".to_vec())] } else { crate::props::c01::neutral_headers(case.headers) };
+        let built = build_response(200, &hdrs, &case.framing, case.hdr_style, coded.as_deref().unwrap_or(&payload));
         ctx.label_if(case.headers % 12 >= 5, "describing-headers(unknown coding / media type)");
         let wire = &built.wire;
         let sub = |mode| Sub {
